@@ -48,7 +48,7 @@ struct RefObs {
 
 fn pool() -> &'static Pool {
     static POOL: OnceLock<Pool> = OnceLock::new();
-    POOL.get_or_init(|| {
+    POOL.get_or_init(|| with_fixed_entropy(|| {
         let mut systems = Vec::new();
         let mut add = |name: &'static str, func: F, binary_x: Option<f64>| {
             let func = Arc::new(func);
@@ -102,7 +102,7 @@ fn pool() -> &'static Pool {
             systems,
             memo: Mutex::new(HashMap::new()),
         }
-    })
+    }))
 }
 
 // ------------------------------------------------------------------ scenario
